@@ -631,7 +631,27 @@ func (p *Prog) verifyFunc(name string) *Exec {
 					ex.addFact(Implies(fr.cur, fr.evalBool(cl.Expr, env)))
 					continue
 				}
-				fr.oblige("post", retLabel+"/"+clauseLabel2(cl, "ensures", i), cl.Props, fr.evalBool(cl.Expr, env), r.pos)
+				goal := fr.evalBool(cl.Expr, env)
+				// a return block reached along several edges: one obligation per edge (the merged
+				// values collapse under the edge condition, which keeps each query small)
+				rb := fn.Blocks[r.blk]
+				var fpreds []*ssa.BasicBlock
+				for _, pb := range rb.Preds {
+					if _, ok := fr.reach[pb]; ok && !rb.Dominates(pb) {
+						fpreds = append(fpreds, pb)
+					}
+				}
+				if len(fpreds) >= 2 && len(fpreds) <= 4 && len(cl.Props) > 0 && fr.loops[rb] == nil {
+					saved := fr.cur
+					for k, pb := range fpreds {
+						fr.cur = fr.edgeCond(pb, rb)
+						fr.oblige("post", fmt.Sprintf("%s/%s/via%d", retLabel, clauseLabel2(cl, "ensures", i), k+1), cl.Props, goal, r.pos)
+					}
+					fr.cur = saved
+					ex.addFact(Implies(fr.cur, goal))
+					continue
+				}
+				fr.oblige("post", retLabel+"/"+clauseLabel2(cl, "ensures", i), cl.Props, goal, r.pos)
 			}
 			if c.Fresh && len(r.vals) > 0 {
 				f := r.vals[0].Fresh
